@@ -739,7 +739,7 @@ fn main() {
     let eng = Engine::start("sievemon");
     let a = &eng.args;
     let mode = a.str("mode", "all");
-    if !["all", "every_limit", "adjacent", "large"].contains(&mode.as_str()) {
+    if !["all", "every_limit", "adjacent", "large", "blocks"].contains(&mode.as_str()) {
         panic!("unknown mode {}", mode);
     }
     let thorough = a.thorough();
@@ -764,6 +764,7 @@ fn main() {
             "every_limit" => ("every_limit", limit <= 2_000_000),
             "adjacent" => ("adjacent", false),
             "large" => ("large", false),
+            "blocks" => ("blocks", false),
             _ => {
                 if limit <= EVERY_T {
                     ("every_limit", true)
@@ -783,6 +784,7 @@ fn main() {
     let run_every = mode == "all" || mode == "every_limit";
     let run_adj = mode == "all" || mode == "adjacent";
     let run_large = mode == "all" || mode == "large";
+    let run_blocks = mode == "all" || mode == "blocks";
     let mut subruns: Vec<Json> = Vec::new();
 
     // ---- every limit up to a few thousand, against trial division
@@ -814,7 +816,7 @@ fn main() {
     }
 
     // ---- shared bit-sieve reference for the larger scales
-    if run_adj || run_large {
+    if run_adj || run_large || run_blocks {
         let adj_max = {
             let p = (2..ADJ_PRIME_BOUND).rev().find(|&x| td_is_prime(x as u32)).unwrap();
             p * p + 1
@@ -826,6 +828,23 @@ fn main() {
         }
         if run_large {
             tmax = tmax.max(*larges.last().unwrap());
+        }
+        // limits that are exact multiples of plausible block / segment sizes (a blocked sieve has its last block edge there)
+        let mut block_limits: Vec<usize> = Vec::new();
+        if run_blocks {
+            let kmax = if thorough { 1024 } else { 256 };
+            for k in 1..=kmax {
+                block_limits.push(k * 1024);
+                block_limits.push(k * 4096);
+                if k <= 100 {
+                    block_limits.push(k * 1000);
+                    block_limits.push(k * 10_000);
+                }
+            }
+            block_limits.sort_unstable();
+            block_limits.dedup();
+            block_limits.reverse();
+            tmax = tmax.max(block_limits[0]);
         }
         let truth = truth_sieve(tmax + 2);
         self_check(&truth, seed, &mut report);
@@ -857,6 +876,26 @@ fn main() {
                     )
                     .set("smallest_limit", limits.last().cloned())
                     .set("largest_limit", limits.first().cloned())
+                    .set("oracle", truth.oracle),
+            );
+        }
+
+        if run_blocks {
+            let q = WorkQueue::new(block_limits.len() as u64);
+            let cx = Cx { truth: &truth, sub: "blocks", findings: &findings, verbose: false };
+            let limits_ref = &block_limits;
+            let rep = common::run_sharded(threads, |_shard, rep| {
+                while let Some(idx) = q.take() {
+                    check_limit(limits_ref[idx as usize], &cx, false, rep);
+                }
+            });
+            report.merge(rep);
+            subruns.push(
+                Json::obj()
+                    .set("name", "blocks")
+                    .set("exhaustive", false)
+                    .set("limits", format!("{} limits k*1024, k*4096, k*1000, k*10000 (exact multiples of plausible block sizes); every table entry of each", block_limits.len()))
+                    .set("largest_limit", block_limits.first().cloned())
                     .set("oracle", truth.oracle),
             );
         }
